@@ -300,7 +300,7 @@ func H_C08_pfdtable() {
 	e := vNewEnv(false)
 	old := map[string]appPFD{"old": {appID: "old", flowDescs: []string{"permit out ip from 10.9.9.9 to assigned"}}}
 	e.pc.appPFDs = old
-	napps := 1 + vChoose("napps", 2)
+	napps := vChoose("napps", 3) // 0: the control plane withdraws every application (the table must end up empty)
 	var apps []*ie.IE
 	var wantIDs []string
 	var wantFlows [][]string
